@@ -20,6 +20,18 @@ pub fn record_parse(opts: &Opts) -> i32 {
     let mut rng = Rng(seed ^ 0x5eed_0001);
     let out = std::io::stdout();
     let mut out = out.lock();
+    if let Some(path) = opts.get("from") {
+        // re-observe given inputs: one {"i": code points} per line
+        let text = std::fs::read_to_string(path).unwrap_or_default();
+        for line in text.lines() {
+            let v: Value = match serde_json::from_str(line) { Ok(v) => v, Err(_) => continue };
+            if let Some(input) = v.get("i").and_then(from_cps) {
+                let obs = run_parse(&input);
+                emit(&mut out, &json!({"i": cps(&input), "obs": parse_out_json(&obs)}));
+            }
+        }
+        return 0;
+    }
     for k in 0..count {
         let m = if mode == "mixed" { ["grammar", "soup", "mutate", "layout", "options"][(k % 5) as usize] } else { mode.as_str() };
         let input = match m {
@@ -43,6 +55,31 @@ pub fn record_parse(opts: &Opts) -> i32 {
                 if rng.chance(1, 2) { words.push(rand_option(&mut rng)); }
                 if rng.chance(1, 3) { words.push(rand_primary(&mut rng)); }
                 words.join(" ")
+            }
+            // one primary, alone or in a simple context, sometimes with a mutated argument
+            "vocab" => {
+                let p = rand_primary(&mut rng);
+                let p = if rng.chance(1, 3) { mutate(&mut rng, &p) } else { p };
+                match rng.below(5) { 0 => format!("-true {}", p), 1 => format!("{} -o -false", p), 2 => format!("( {} )", p), 3 => format!("! {}", p), _ => p }
+            }
+            "numbers" => rand_numeric_primary(&mut rng),
+            "perm" => { let p = rand_perm(&mut rng); format!("-perm {}", p) }
+            "format" => {
+                let f = rand_format(&mut rng);
+                let f = if rng.chance(1, 3) { mutate(&mut rng, &f) } else { f };
+                if f.contains('\'') || f.is_empty() { format!("-printf \"{}\"", f.replace('"', "")) } else { format!("-printf '{}'", f) }
+            }
+            "errors" => {
+                // a valid expression with one word replaced by junk or truncated after a keyword
+                let d = 1 + rng.below(3);
+                let base = rand_expr_text(&mut rng, d, false);
+                let words: Vec<&str> = base.split(' ').collect();
+                let k = rng.below(words.len());
+                match rng.below(3) {
+                    0 => words[..=k].join(" "),
+                    1 => { let mut w: Vec<String> = words.iter().map(|s| s.to_string()).collect(); w[k] = ["x", "%", "=5", "foo", "-nosuch", "k1"][rng.below(6)].to_string(); w.join(" ") }
+                    _ => { let mut w: Vec<String> = words.iter().map(|s| s.to_string()).collect(); w.insert(k, ["foo", "-bar", "+1"][rng.below(3)].to_string()); w.join(" ") }
+                }
             }
             _ => rand_primary(&mut rng),
         };
